@@ -91,8 +91,8 @@ HSetSemaphore(y, b)     == WireFc(y, SetSemaphore(y.fc, b))
 HGetSemaphore(y)        == WireFd(y, GetSemaphore(y.fd))
 HClearSemaphore(y, b)   == WireFd(y, ClearSemaphore(y.fd, b))
 HMaskSemaphore(y, b)    == WireFd(y, MaskSemaphore(y.fd, b))
-\* Teakra::Reset: both objects; the ICU and the MMIO cell storage are not touched
-HReset(y)               == Res([y EXCEPT !.fc = Reset(y.fc).s, !.fd = Reset(y.fd).s], 0, <<>>)
+\* Teakra::Reset: both objects and (since the fix b81da6f in /repo) the ICU; the MMIO cell storage is not touched
+HReset(y)               == Res([y EXCEPT !.fc = Reset(y.fc).s, !.fd = Reset(y.fd).s, !.icu = 0], 0, <<>>)
 
 \* --- DSP side: MMIORead / MMIOWrite -------------------------------------------------------
 IsReply(a) == \E c \in Chan : a = AReply(c)
@@ -268,10 +268,10 @@ SemaphoreInterrupts ==
         /\ StaysZero(y.fd, y'.fd) => NumH(ev'.hc, "sem") = 0
       ]_vars
 
-\* request bit 14 is a latch: up only by an interrupt, down only by the acknowledge write
+\* request bit 14 is a latch: up only by an interrupt, down only by the acknowledge write (or a reset)
 IcuLatch ==
     [][ /\ (y.icu = 0 /\ y'.icu = 1) => NumH(ev'.hc, "irq") >= 1
-        /\ (y.icu = 1 /\ y'.icu = 0) => (ev'.e = "W" /\ ev'.c = AIcuAck) \/ ev'.e = "New"   \* New: another instance
+        /\ (y.icu = 1 /\ y'.icu = 0) => (ev'.e = "W" /\ ev'.c = AIcuAck) \/ ev'.e \in {"New", "HReset"}   \* New: another instance; Reset resets the ICU
         /\ NumH(ev'.hc, "irq") >= 1 => y'.icu = 1
       ]_vars
 =============================================================================
